@@ -111,6 +111,16 @@ pub fn drive(args: &HashMap<String, String>) {
         let defs: Vec<String> = p.helpers.iter().map(|h| h.render()).collect();
         cs.push(Case { expr: p.body.render(), defs, envs, open: true, p });
     }
+    // ModLadder sessions: open (free variable P1) and closed
+    for (p, envs) in crate::p_compile::mod_ladder() {
+        let defs: Vec<String> = p.helpers.iter().map(|h| h.render()).collect();
+        cs.push(Case { expr: p.body.render(), defs: defs.clone(), envs: envs.clone(), open: true, p: p.clone() });
+        if let V::P(first, _) = &envs[0] {
+            let vals: HashMap<String, V> = [("P1".to_string(), (**first).clone())].into_iter().collect();
+            let pc = Program { args: Pat::Nil, helpers: p.helpers.clone(), body: subst(&p.body, &vals) };
+            cs.push(Case { expr: pc.body.render(), defs, envs: vec![V::nil()], open: false, p: pc });
+        }
+    }
     // DepthLadder sessions: open (free variable P1) and closed (P1 = the first argument list's value)
     for (p, envs) in crate::p_compile::depth_ladder(n >= 1000) {
         let defs: Vec<String> = p.helpers.iter().map(|h| h.render()).collect();
